@@ -186,30 +186,35 @@ def dfStep (ds : DState) (op : String) (a : List String) : DState × String :=
         | .ok payload =>
           match decodeValue payload with
           | some v => (ds, fmtVal v)
-          | none => (ds, "panic:decode")
+          | none => (ds, "err:crc")
         | .eof => (ds, "err:eof")
         | .err => (ds, "err:crc")
       | "df.scan", [] =>
         let sc := scan C false d.id f
-        let parts := sc.recs.map (fun (x : ByteArray × Pos) =>
+        -- `NextLogRecord` reports a payload that contradicts its own header (`validLogRecord`) as corruption: the scan stops there
+        let good := sc.recs.takeWhile (fun (x : ByteArray × Pos) => (decodeRecord x.1).isSome)
+        let parts := good.map (fun (x : ByteArray × Pos) =>
           match decodeRecord x.1 with
           | some r => fmtRec r ++ "@" ++ fmtPos x.2
-          | none => "panic:decode")
-        (ds, "scan " ++ " ".intercalate (parts ++ [if sc.ok then "eof" else "err:crc"]))
+          | none => "?")
+        (ds, "scan " ++ " ".intercalate (parts ++ [if sc.ok && good.length == sc.recs.length then "eof" else "err:crc"]))
       | "df.scan", ["tol"] =>
         let sc := scan C true d.id f
-        let parts := sc.recs.map (fun (x : ByteArray × Pos) =>
+        -- `NextLogRecord` reports a payload that contradicts its own header (`validLogRecord`) as corruption: the scan stops there
+        let good := sc.recs.takeWhile (fun (x : ByteArray × Pos) => (decodeRecord x.1).isSome)
+        let parts := good.map (fun (x : ByteArray × Pos) =>
           match decodeRecord x.1 with
           | some r => fmtRec r ++ "@" ++ fmtPos x.2
-          | none => "panic:decode")
-        (ds, "scan " ++ " ".intercalate (parts ++ [if sc.ok then "eof" else "err:crc"]))
+          | none => "?")
+        (ds, "scan " ++ " ".intercalate (parts ++ [if sc.ok && good.length == sc.recs.length then "eof" else "err:crc"]))
       | "df.scanhint", [] =>
         let sc := scan C false d.id f
-        let parts := sc.recs.map (fun (x : ByteArray × Pos) =>
+        let good := sc.recs.takeWhile (fun (x : ByteArray × Pos) => (decodeHint x.1).isSome)
+        let parts := good.map (fun (x : ByteArray × Pos) =>
           match decodeHint x.1 with
           | some (k, p) => fmtKey k ++ "@" ++ fmtPos p
-          | none => "panic:decode")
-        (ds, "scanhint " ++ " ".intercalate (parts ++ [if sc.ok then "eof" else "err:crc"]))
+          | none => "?")
+        (ds, "scanhint " ++ " ".intercalate (parts ++ [if sc.ok && good.length == sc.recs.length then "eof" else "err:crc"]))
       | "df.size", [] => (ds, s!"size logical={f.size} last={f.size / BS}.{f.size % BS}")
       | "df.phys", [] => if d.io = 1 then (ds, "?") else (ds, s!"phys {f.size}")
       | "df.sync", [] => (ds, "ok")
@@ -343,6 +348,38 @@ def stepMain (ds : DState) (toks : List String) : DState × String :=
           let n := n.toNat!
           let bytes := if n ≤ f.bytes.size then f.bytes.extract 0 n else f.bytes ++ zeros (n - f.bytes.size)
           ({ ds with st := { s with world := s.world.set d { dir with data := setFile dir.data id { bytes := bytes, synced := min f.synced n } } } }, "ok")
+      else (ds, "?")
+  | ["cutout", d, file, off, n] =>
+    match s.world.get d with
+    | none => (ds, "err:open")
+    | some dir =>
+      if file.endsWith ".data" then
+        let id := (file.take 9).toString.toNat!
+        match getFile dir.data id with
+        | none => (ds, "err:open")
+        | some f =>
+          let off := off.toNat!
+          let n := n.toNat!
+          if off + n > f.bytes.size then (ds, "err:range") else
+          let bytes := f.bytes.extract 0 off ++ f.bytes.extract (off + n) f.bytes.size
+          ({ ds with st := { s with world := s.world.set d { dir with data := setFile dir.data id { bytes := bytes, synced := min f.synced bytes.size } } } }, "ok")
+      else (ds, "?")
+  | ["swapblk", d, file, o1, o2, n] =>
+    match s.world.get d with
+    | none => (ds, "err:open")
+    | some dir =>
+      if file.endsWith ".data" then
+        let id := (file.take 9).toString.toNat!
+        match getFile dir.data id with
+        | none => (ds, "err:open")
+        | some f =>
+          let o1 := o1.toNat!
+          let o2 := o2.toNat!
+          let n := n.toNat!
+          if o1 + n > o2 ∨ o2 + n > f.bytes.size then (ds, "err:range") else
+          let b := f.bytes
+          let bytes := b.extract 0 o1 ++ b.extract o2 (o2 + n) ++ b.extract (o1 + n) o2 ++ b.extract o1 (o1 + n) ++ b.extract (o2 + n) b.size
+          ({ ds with st := { s with world := s.world.set d { dir with data := setFile dir.data id { f with bytes := bytes } } } }, "ok")
       else (ds, "?")
   | ["corrupt", d, file, off, x] =>
     match s.world.get d with
